@@ -471,6 +471,7 @@ fn rand_cfg(r: &mut SmallRng, n: usize) -> Cfg {
 }
 
 fn main() {
+    default_thread_stacks();
     let mut ctx = Ctx::from_args("C08");
     ctx.set_hang_limit(600);
     let debug = cfg!(debug_assertions);
@@ -562,7 +563,7 @@ fn main() {
     }
 
     // 3. random rounds: random width, size, configuration; rate judged when n >= 1000
-    let rounds = ctx.scale(5, 2_000, 20_000);
+    let rounds = ctx.scale(5, 2_000, 100_000);
     for _ in 0..rounds {
         let v = r.random_range(0..VARIANTS.len());
         let var = &VARIANTS[v];
